@@ -271,6 +271,22 @@ def run(index, rep, tier):
         direct = [n for n in walk_no_nested(f.node) if isinstance(n, ast.Return) and "leaf" in norm(n.value)]
         rep.check((ok and len(incs) == 1) or bool(direct), "R15.4", f.qualname, "counts leaves", fn_where(f), "len(tree) counts seed_node.leaf_iter()", "Tree.__len__ no longer counts the leaves of the tree")
 
+    # ---- R15.7
+    with rep.section("R15.7"):
+        rep.rule("R15.7", "traversals only read: no iterator / callback walk of Node or Tree stores to, or calls a mutator on, a link field (_child_nodes, _parent_node, _edge ...), not even through a local alias of a child list")
+        LINKS = ("_child_nodes", "_parent_node", "_edge", "_head_node", "_tail_node", "_seed_node")
+        nit = 0
+        for cq in (NODE, TREE):
+            for fi in index.methods_of(cq):
+                if not (fi.name.endswith("_iter") or fi.name in ("apply", "__iter__", "leaf_nodes", "internal_nodes", "nodes", "edges", "leaf_edges", "internal_edges")):
+                    continue
+                nit += 1
+                bad = [w for w in writes_in(fi.node) if w.attr in LINKS]
+                rep.check(not bad, "R15.7", fi.qualname, "traversal writes %s: %s" % (bad[0].attr if bad else "", norm_stmt(bad[0].stmt)[:60] if bad else ""), fn_where(fi, bad[0].stmt if bad else None),
+                          "%s does not write the tree" % fi.qualname,
+                          "%s modifies the link field `%s` (`%s`%s): iterating must leave the tree as it was - here the traversal consumes the very child list it walks, so a second traversal (of any kind) no longer sees those nodes" % (fi.qualname, bad[0].attr if bad else "", norm_stmt(bad[0].stmt)[:70] if bad else "", ", through the alias `%s`" % bad[0].via_alias if bad and bad[0].via_alias else ""))
+        rep.floor("R15.7", "traversal functions of Node and Tree", 30, nit)
+
     # ---- R15.6
     with rep.section("R15.6"):
         rep.rule("R15.6", "age order: Node.ageorder_iter sorts every node of the subtree with the node's age as the PRIMARY key, and reverses exactly when `descending` is set")
@@ -318,7 +334,21 @@ def run(index, rep, tier):
         climbs = [l for l in climbs if "_parent_node" in norm(l.test)]
         if not climbs:
             raise AnalysisError("R15.5: upward climb in Node.apply not recognised")
+        cfg = cfg_of(f)
         for l in climbs:
-            bounded = "self" in names_in(l.test) or any(isinstance(n, ast.Compare) and "self" in names_in(n) for s_ in l.body for n in ast.walk(s_))
+            # every climb step `v = v._parent_node` is taken only after `v is not self` has been established for the current v
+            steps = [n for n in ast.walk(l) if isinstance(n, ast.Assign) and isinstance(n.targets[0], ast.Name) and norm(n.value) == n.targets[0].id + "._parent_node"]
+            bounded = bool(steps)
+            for st in steps:
+                v = st.targets[0].id
+                sn = stmt_nodes(cfg, st)
+                tests = [t for t in cfg.nodes if t.kind == "test" and isinstance(t.ast, ast.Compare) and len(t.ast.ops) == 1 and isinstance(t.ast.ops[0], (ast.Is, ast.IsNot))
+                         and {norm(t.ast.left), norm(t.ast.comparators[0])} == {v, "self"}]
+                passed = {(t.id, "t" if isinstance(t.ast.ops[0], ast.IsNot) else "f") for t in tests}
+                eo = lambda s_, lab, d_: (s_.id, lab) not in passed
+                from_entry = cfg.reach([cfg.entry], follow_exc=False, edge_ok=eo)
+                from_step = cfg.reach(cfg.succ_after(sn[0]), follow_exc=False, edge_ok=eo) if sn else []
+                if not sn or any(x is sn[0] for x in from_entry) or any(x is sn[0] for x in from_step):
+                    bounded = False
             rep.check(bounded, "R15.5", f.qualname, "climb `%s` not bounded by the start node" % norm(l.test)[:70], fn_where(f, l), "the upward climb in Node.apply stops at the start node",
                       "Node.apply climbs towards the root with `while %s` and never compares with the start node `self`: started on a subtree whose root is the last child of its parent, it calls after_fn on ancestors that never received before_fn (bracket mismatch)" % norm(l.test)[:90])
